@@ -470,9 +470,10 @@ TLC_STRIPE_LIMIT = 12000      # weights of one stripe above which the order comp
 
 
 def source_constants(model):
-    """name of a constant weight tensor -> what the source model says about the one operator that uses it as weights:
-    kind, OHWI weights, zero points, biases and the real per-channel rescale.  Tensors used by several operators, by
-    other operator kinds or without constant data are left out (the compiled operation is then counted as skipped)."""
+    """(name of the weight tensor, name of the bias tensor) -> what the source model says about the one CONV_2D /
+    DEPTHWISE_CONV_2D / FULLY_CONNECTED that uses this pair: kind, OHWI weights, zero points, biases and the real
+    per-channel rescale.  Ambiguous pairs, other operator kinds and tensors without constant data are left out (the
+    compiled operation is then counted as skipped)."""
     import numpy as np
     T = model["tensors"]
 
@@ -482,21 +483,27 @@ def source_constants(model):
         if dt is None or not raw:
             return None
         return np.frombuffer(raw, dtype=dt).astype(np.int64)
-    users = {}
-    for o in model["ops"]:
-        if len(o["inputs"]) > 1 and o["inputs"][1] >= 0:
-            users.setdefault(o["inputs"][1], []).append(o)
     names = {}
     for t in T:
         names[t["name"]] = names.get(t["name"], 0) + 1
+    users = {}
+    for o in model["ops"]:
+        for i in o["inputs"][1:2]:
+            if i >= 0:
+                users.setdefault(i, []).append(o)
     out = {}
-    for wi, ops in users.items():
-        o = ops[0]
+    for o in model["ops"]:
         kind = SRC_KIND.get(o["code"])
-        wt = T[wi]
-        if len(ops) != 1 or kind is None or names[wt["name"]] != 1 or len(o["inputs"]) < 3 or o["inputs"][2] < 0:
+        if kind is None or len(o["inputs"]) < 3 or o["inputs"][1] < 0 or o["inputs"][2] < 0:
             continue
-        w, b = values(wt), values(T[o["inputs"][2]])
+        wt, bt = T[o["inputs"][1]], T[o["inputs"][2]]
+        # tied weights (one weight tensor, several operators) are fine as long as every user is of the same kind and
+        # the (weights, bias) pair names one operator
+        if names[wt["name"]] != 1 or names[bt["name"]] != 1 or any(SRC_KIND.get(u["code"]) != kind for u in users[o["inputs"][1]]):
+            continue
+        if sum(1 for u in users[o["inputs"][1]] if len(u["inputs"]) > 2 and u["inputs"][2] == o["inputs"][2]) != 1:
+            continue
+        w, b = values(wt), values(bt)
         ifm, ofm = T[o["inputs"][0]], T[o["outputs"][0]]
         if w is None or b is None or not wt["quant"] or not ifm["quant"] or not ofm["quant"]:
             continue
@@ -515,8 +522,9 @@ def source_constants(model):
         if len(b) != n or len(zp) not in (1, n) or len(ws) not in (1, n) or not ifm["quant"]["scale"] or not ofm["quant"]["scale"]:
             continue
         real = [ifm["quant"]["scale"][0] * (ws[ch] if len(ws) > 1 else ws[0]) / ofm["quant"]["scale"][0] for ch in range(n)]
-        out[wt["name"]] = {"kind": kind, "ohwi": ohwi, "zp": [int(zp[ch] if len(zp) > 1 else zp[0]) for ch in range(n)],
-                           "bias": [int(v) for v in b], "real_scale": real, "bias_name": T[o["inputs"][2]]["name"]}
+        out[(wt["name"], bt["name"])] = {
+            "kind": kind, "ohwi": ohwi, "zp": [int(zp[ch] if len(zp) > 1 else zp[0]) for ch in range(n)],
+            "bias": [int(v) for v in b], "real_scale": real, "tied": len(users[o["inputs"][1]]) > 1}
     return out
 
 
@@ -620,10 +628,37 @@ def decode_isolated(so, sections):
     return out
 
 
+def tied_net(rng, sd):
+    """Two (or three) CONV_2D that reference one weight tensor but have their own bias tensors and output scales (tied
+    weights; valid TFLite): the later encode requests hit the weight cache with another scale configuration, so the
+    operators get stand-alone scale tensors."""
+    from ..netgen import Net
+    n = Net(sd)
+    H, W, C = rng.choice([4, 8, 16]), rng.choice([4, 8]), rng.choice([8, 16, 32, 64])
+    oc = rng.choice([16, 24, 32, 64, 96, 128, 192])
+    k = rng.choice([1, 1, 3])
+    xs = [n.fm("in%d" % i, [1, H, W, C], is_input=True) for i in range(rng.choice([1, 2]))]
+    y0 = n.conv(xs[0], oc, k)
+    wt = n.o[-1]["inputs"][1]
+    per_channel = "qdim" in n.t[wt] and n.t[wt]["qdim"] is not None
+    outs = [y0]
+    for i in range(rng.choice([1, 1, 2])):
+        nm = "tied%d" % i
+        ns = oc if per_channel else 1
+        bt = n.const(nm + "_b", [oc], "INT32", -(1 << 20), 1 << 20, scale=[0.0005] * ns, zp=[0] * ns,
+                     qdim=0 if per_channel else None)
+        y = n.fm(nm, n.shape(y0), "INT8", rng.choice([0.05, 0.09, 0.13]), rng.choice([-3, 0, 4]))
+        n.op("CONV_2D", [xs[-1] if i % 2 == 0 else xs[0], wt, bt], [y], n.o[0]["opts"] if False else
+             ["Conv2DOptions", {"Padding": 0, "StrideW": 1, "StrideH": 1, "DilationWFactor": 1, "DilationHFactor": 1,
+                                "FusedActivationFunction": 0}])
+        outs.append(y)
+    return "tied:%d" % len(outs), n.desc(outs)
+
+
 def compiled_jobs(tier, sd):
     from .. import corpus
     rng = random.Random(sd * 31 + 5)
-    n = 50 if tier == "quick" else 800
+    n = 42 if tier == "quick" else 700
     jobs = []
     kinds = ["conv", "conv_s2", "conv_valid", "conv1x1", "dw", "dw_s2", "fc", "int16conv", "dilconv", "split", "pad",
              "mean", "tconv"]          # the last two are rewritten by the optimiser: counted as skipped
@@ -632,6 +667,16 @@ def compiled_jobs(tier, sd):
         jobs.append({"id": "s%d" % i, "family": label, "net": net, "opts": corpus.config_point(rng)})
     jobs += corpus.draw(n - len(jobs), sd * 13 + 1, families=["wide", "chain", "pruned", "branch", "wide", "u8i16"],
                         dedicated_bias=0.5)
+    # tied weights: several ranges per encoding through two cores or sliced (buffered) weights
+    ntied = 8 if tier == "quick" else 100
+    for i in range(ntied):
+        label, net = tied_net(rng, rng.randrange(1 << 20))
+        opts = corpus.config_point(rng, "ethos-u65-512" if i % 2 == 0 else rng.choice(["ethos-u55-128", "ethos-u55-256", "ethos-u65-256"]))
+        if i % 2:
+            opts.update(config=corpus.ARM_INI, system_config="Ethos_U55_Deep_Embedded" if "u55" in opts["accel"] else
+                        "Ethos_U65_High_End", memory_mode="Shared_Sram" if "u55" in opts["accel"] else "Dedicated_Sram")
+            opts["arena"] = rng.choice([8192, 16384, 32768])
+        jobs.append({"id": "t%d" % i, "family": label, "net": net, "opts": opts, "tied": True})
     # biases that need all five bytes of the 40-bit field (the corpus draws them from -1000..1000)
     for k, j in enumerate(jobs):
         if k % 2 == 0:
@@ -644,7 +689,7 @@ def compiled_jobs(tier, sd):
                         bt["data"] = dict(bt["data"], lo=-big, hi=big)
     # the two-core accelerator and small staging areas (buffered, depth-sliced weights) must be present
     for k, j in enumerate(jobs):
-        if k % 4 == 1:
+        if k % 4 == 1 and not j.get("tied"):
             j["opts"] = dict(j["opts"], accel="ethos-u65-512")
             for key in ("config", "system_config", "memory_mode"):
                 j["opts"].pop(key, None)
@@ -680,7 +725,7 @@ def stripes_of_job(j, x, counts):
             w = c.get("weights")
             if o["kind"] not in ("conv", "dw") or not w:
                 continue
-            sc = src.get(source_name(w.get("wname", "")))
+            sc = src.get((source_name(w.get("wname", "")), source_name(w.get("bname", ""))))
             g = npuhw.geometry(o["kind"], regs)
             c0, c1 = w["depth"]
             why = None
@@ -728,8 +773,9 @@ def stripes_of_job(j, x, counts):
                   "acc": ACC_NAME[accel], "trav": cfg0["trav"], "bits": g["ifm_bits"], "dily": g["dy"], "dilx": g["dx"],
                   "flip": False, "wraw": sub.reshape(-1).tolist(), "zp": sc["zp"][c0:c1],
                   "bias": [limbs40(v) for v in sc["bias"][c0:c1]], "cores": cores,
-                  "_real": sc["real_scale"][c0:c1], "_c0": c0, "_op": "%s %s[%d:%d]" % (sc["kind"], source_name(w["wname"]), c0, c1),
-                  "_buffered": regs["NPU_SET_WEIGHT_REGION"] != 0, "_vol": sub}
+                  "_real": sc["real_scale"][c0:c1], "_c0": c0, "_op": "%s %s+%s[%d:%d]" % (sc["kind"], source_name(w["wname"]), source_name(w["bname"]), c0, c1),
+                  "_buffered": regs["NPU_SET_WEIGHT_REGION"] != 0, "_vol": sub, "_tied": sc["tied"],
+                  "_standalone_scales": bool(c.get("scales"))}
             obs.append(ev)
     return obs
 
@@ -815,7 +861,7 @@ def validate_compiled(run, tier, jobs=None):
     counts = {"skipped": {}, "compiled": 0, "failed_to_compile": 0}
     tlc_events, meta, big = [], {}, []
     classes = {}
-    n_checked = n_buffered = n_two = 0
+    n_checked = n_buffered = n_two = n_tied = n_standalone = n_standalone_multi = 0
     for j, x in zip(jobs, rs):
         if x["rc"] != 0 or "out_bytes" not in x:
             counts["failed_to_compile"] += 1      # C13's business
@@ -838,6 +884,9 @@ def validate_compiled(run, tier, jobs=None):
             classes[cls] = classes.get(cls, 0) + 1
             n_buffered += ev["_buffered"]
             n_two += ev["nc"] == 2
+            n_tied += ev["_tied"]
+            n_standalone += ev["_standalone_scales"]
+            n_standalone_multi += ev["_standalone_scales"] and (ev["nc"] == 2 or ev["_c0"] > 0)
             run.evaluated()
             run.nontrivial(("compiled", ev["_op"].split(" ")[0], ev["acc"], ev["trav"], ev["bits"], ev["B"], ev["n"], ev["kh"],
                             ev["kw"], ev["id"], ev["_buffered"]))
@@ -860,9 +909,11 @@ def validate_compiled(run, tier, jobs=None):
     if n_checked == 0:
         raise MachineryError("artefact level: no compiled operation could be checked (%s)" % counts)
     if not replaying and (n_buffered == 0 or n_two == 0 or not any(k.startswith("dw/") for k in classes)
-                          or not any(k.startswith("fc/") for k in classes) or not counts["skipped"]):
+                          or not any(k.startswith("fc/") for k in classes) or not counts["skipped"]
+                          or n_standalone_multi == 0):
         raise MachineryError("vacuity: artefact level misses a class (buffered, two cores, depthwise, FC, skipped "
-                             "rewrites): %s %s" % (classes, counts))
+                             "rewrites, stand-alone scale tensor with several ranges): %s %s standalone=%d" % (
+                                 classes, counts, n_standalone_multi))
     n_tlc = len(tlc_events)
     if tlc_events:
         tlc_viol = validate_layout(run, "compiled operations" if not replaying else "replay",
@@ -910,6 +961,9 @@ def validate_compiled(run, tier, jobs=None):
     run.cov["skipped"] = counts["skipped"]
     run.cov["buffered_weight_ops"] = n_buffered
     run.cov["two_core_ops"] = n_two
+    run.cov["tied_weight_ops"] = n_tied
+    run.cov["standalone_scale_tensor_ops"] = n_standalone
+    run.cov["standalone_scale_tensor_ops_beyond_first_range"] = n_standalone_multi
     run.cov["compiled_op_classes"] = classes
     run.cov["compiled_wall_s"] = round(time.time() - t0, 1)
     run.assumptions += [
